@@ -103,6 +103,10 @@ def gen_sequence(rng, pool):
     for _ in range(n):
         p = rng.randrange(ports)
         k = rng.random()
+        if arr and rng.random() < 0.12:       # the very same datagram once more (a device repeats itself): on the same port or on another
+            last = arr[-1]
+            arr.append((last[0] if rng.random() < 0.6 else p, last[1], last[2]))
+            continue
         v = rng.choice(pool)
         b = bytes.fromhex(v["dgram"])
         if k < 0.5:
